@@ -401,6 +401,7 @@ func entityRemovalCascade(p *Prog, r *Report, ruleA, ruleB string) {
 		arg := Path(callArgs(&removal.Call)[0])
 		elem := strings.TrimSuffix(arg, ".Description.EntityAddress.Entity")
 		tested := ""
+		var testedRoot ssa.Instruction
 		for _, g := range Guards(removal.Block()) {
 			bo, ok := g.Cond.(*ssa.BinOp)
 			if !ok || (bo.Op == token.EQL) != g.Val {
@@ -408,9 +409,13 @@ func entityRemovalCascade(p *Prog, r *Report, ruleA, ruleB string) {
 			}
 			if s, isS := constString(bo.Y); isS && s == "removed" {
 				tested = strings.TrimSuffix(Path(bo.X), ".Description.LastStateChange")
+				testedRoot = elementRoot(bo.X)
 			}
 		}
-		r.Check(ruleA, base+"|removes-tested-element", elem != arg && tested != "" && elem == tested, p.InstrPos(removal), fmt.Sprintf("removal of %s under a test of the state of %s", arg, tested))
+		// paths render every non-constant index alike, so two loops over the same list look the same:
+		// the element removed must also be the same element load (same loop variable) as the one tested
+		sameElem := testedRoot != nil && elementRoot(callArgs(&removal.Call)[0]) == testedRoot
+		r.Check(ruleA, base+"|removes-tested-element", elem != arg && tested != "" && elem == tested && sameElem, p.InstrPos(removal), fmt.Sprintf("removal of %s under a test of the state of %s; same list element (loop variable): %v", arg, tested, sameElem))
 		// on the peer the message came from
 		r.Check(ruleA, base+"|on-sender-device", strings.HasSuffix(Path(removal.Call.Value), ".FeatureRemote.Device()"), p.InstrPos(removal), "removal on "+Path(removal.Call.Value))
 
@@ -481,4 +486,43 @@ func entityRemovalCascade(p *Prog, r *Report, ruleA, ruleB string) {
 		}
 	}
 	r.Floor(ruleA, "functions removing remote entities", nRemovers, 1)
+}
+
+// elementRoot walks from a value derived from a list element (fields, loads,
+// single-store locals) down to the instruction that selects the element.
+func elementRoot(v ssa.Value) ssa.Instruction {
+	for d := 0; d < 16 && v != nil; d++ {
+		switch x := v.(type) {
+		case *ssa.IndexAddr:
+			return x
+		case *ssa.Index:
+			return x
+		case *ssa.Extract:
+			if n, ok := x.Tuple.(*ssa.Next); ok {
+				return n
+			}
+			v = x.Tuple
+		case *ssa.FieldAddr:
+			v = x.X
+		case *ssa.Field:
+			v = x.X
+		case *ssa.UnOp:
+			v = x.X
+		case *ssa.Alloc:
+			if s := singleStore(x); s != nil {
+				v = s
+			} else {
+				return nil
+			}
+		case *ssa.ChangeType:
+			v = x.X
+		case *ssa.Convert:
+			v = x.X
+		case *ssa.MakeInterface:
+			v = x.X
+		default:
+			return nil
+		}
+	}
+	return nil
 }
